@@ -68,6 +68,21 @@ Proof.
     rewrite Hd', <- app_assoc. auto 10.
 Qed.
 
+Lemma write_stdout_rec_good E s rec s' ok : good E s -> write_stdout_rec E s rec = (s', ok) ->
+  good E s' /\ ok = true /\ st_outs s' = st_outs s.
+Proof.
+  intros Hg. unfold write_stdout_rec.
+  destruct (e_mode E) eqn:Em; try apply (write_stdout_good E s [rec] s' ok Hg).
+  destruct (cap <? scratch_size)%nat; [|apply (write_stdout_good E s [rec] s' ok Hg)].
+  pose proof (touch_frame E s) as Hf. pose proof (good_frame E _ _ Hf Hg) as Hg'.
+  destruct Hf as (F1 & F2 & F3 & F4 & F5 & F6 & F7).
+  set (s1 := touch E s) in *. destruct Hg' as (Hl & He & Hc & Hx & Hn).
+  cbn [st_out st_sink add_log].
+  destruct (write_chunks_buf_nolimit cap (scratch_chunks rec) _ _ Hl He) as (w' & k' & Ew & Hl' & He' & Hd'). rewrite Ew.
+  intros H; injection H as <- <-. unfold good, out_content, nobuf. rewrite Em. cbn. rewrite Hx. unfold out_content.
+  rewrite Hd', scratch_chunks_concat, <- app_assoc. auto 10.
+Qed.
+
 Lemma child_out_good E s data s' ok : good E s -> child_out E s false data = (s', ok) ->
   good E s' /\ ok = true /\ st_outs s' = st_outs s /\ st_fs s' = st_fs s /\ st_ins s' = st_ins s /\ st_obs s' = st_obs s.
 Proof.
@@ -302,14 +317,15 @@ Proof.
   - apply good_add_obs; auto.
 Qed.
 
-Lemma step_good E s o s' oc : good E s -> step E s o = (s', oc) -> good E s'.
+Lemma step_print_good E s d ps wr s' oc : good E s ->
+  (forall s1 s2 ok, good E s1 -> wr s1 = (s2, ok) -> good E s2) ->
+  step_print E s d ps wr = (s', oc) -> good E s'.
 Proof.
-  intros Hg. destruct o as [d ps|n|[n|]|c|n|c| |code| |n]; cbn [step].
-  - (* Print *)
-    destruct (get_output_stream E s d) as [s1 [[|n]|]] eqn:Eg;
+  intros Hg Hwr. unfold step_print.
+  destruct (get_output_stream E s d) as [s1 [[|n]|]] eqn:Eg;
       pose proof (get_output_stream_good _ _ _ _ _ Hg Eg) as Hg1.
-    + destruct (write_stdout E s1 ps) as [s2 ok] eqn:Ew.
-      destruct (write_stdout_good _ _ _ _ _ Hg1 Ew) as (Hg2 & -> & _). intros H; injection H as <- <-; auto.
+    + destruct (wr s1) as [s2 ok] eqn:Ew. pose proof (Hwr _ _ _ Hg1 Ew) as Hg2.
+      destruct ok; intros H; injection H as <- <-; auto.
     + destruct (alookup n (st_outs s1)) as [os|] eqn:El; [|intros H; injection H as <- <-; auto].
       set (s1' := add_log s1 _).
       assert (Hg1' : good E s1') by (subst s1'; apply good_add_log; auto; destruct (os_kind os); exact I).
@@ -317,6 +333,13 @@ Proof.
       destruct (write_ostream_good _ _ _ _ _ _ _ Hg1' (good_lookup _ _ _ _ Hg1 El) Ew) as (Hg2 & Hc2 & _).
       intros H; injection H as <- <-. apply good_aset; auto.
     + intros H; injection H as <- <-; auto.
+Qed.
+
+Lemma step_good E s o s' oc : good E s -> step E s o = (s', oc) -> good E s'.
+Proof.
+  intros Hg. destruct o as [d ps|n|[n|]|c|n|c| |code| |n|d rec]; cbn [step].
+  - (* Print *)
+    apply step_print_good; auto. intros s1 s2 ok Hg1 Ew. eapply write_stdout_good; eauto.
   - (* Close *)
     destruct (alookup n (st_ins s)) as [i|] eqn:Ei.
     + destruct (if is_cmd i then wait_result (c_exit (e_spec E n)) false else (0, false)) as [code err].
@@ -359,6 +382,8 @@ Proof.
     destruct (amem n (st_outs s)); [intros H; injection H as <- <-; auto|].
     destruct (negb (amem n (st_ins s)) && negb (amem n (st_fs s))); [intros H; injection H as <- <-; auto using good_set_unmod|].
     apply getline_file_good. apply good_add_synced; auto.
+  - (* print in CSV/TSV mode *)
+    apply step_print_good; auto. intros s1 s2 ok Hg1 Ew. eapply write_stdout_rec_good; eauto.
 Qed.
 
 Lemma exec_good E ops : forall s s' r, good E s -> exec E s ops = (s', r) -> good E s'.
